@@ -15,7 +15,7 @@ func c14Cfg() *DeclCfg {
 		{K: KString, W: WMap, MapKey: KString}, {K: KInt, W: WMap, MapKey: KString}, {K: KCelsius}, {K: KString, W: WFunc1}, {W: WFunc0}}
 	return &DeclCfg{
 		MaxDepth: 2, MaxFan: 2, PCmds: 60, Types: types, OptsMin: 1, OptsMax: 4, SubGroupsMax: 2, NestMax: 2,
-		PNamespace: 30, PShortOnly: 15, PLongOnly: 15, PDefault: 15, PBase: 15, PChoices: 5,
+		PCmdTwin: 20, PDupField: 20, PNoIni: 10, PNamespace: 30, PShortOnly: 15, PLongOnly: 15, PDefault: 15, PBase: 15, PChoices: 5,
 		PExec: 30, PByTag: 50, PSubOptional: 100, PIniName: 20,
 		ParserOpts: []flags.Options{0, flags.HelpFlag},
 	}
@@ -45,15 +45,44 @@ func sectionOf(o *Opt) (string, *Grp) {
 	return strings.Join(append(path, g.Desc), "."), g
 }
 
+// iniKeySingles: key names option o, and only o, among the options the groups denote (no-ini options do not
+// compete under either reading of "no-ini", see C13).
+func iniKeySingles(d *Decl, groups []*Grp, key string, o *Opt) bool {
+	if resolveIniName(d, groups, key) != o || resolveVisible(d, groups, key) != o {
+		return false
+	}
+	n := 0
+	for _, x := range groupTree(groups[0]) {
+		if x.NoIni {
+			continue
+		}
+		if (x.IniName != "" && strings.EqualFold(x.IniName, key)) || x.Field == key || (x.Long != "" && d.FullLong(x) == key) || (x.Short != 0 && string(x.Short) == key) {
+			n++
+		}
+	}
+	return n == 1
+}
+
 func c14BaseFile(r *Rand, d *Decl) []iniLine {
 	bySect := map[string][]*Opt{}
 	var order []string
 	grp := map[string]*Grp{}
+	preamble := r.Chance(1, 3)
 	for _, o := range d.Opts {
 		if o.NoIni || !r.Chance(2, 3) {
 			continue
 		}
 		s, g := sectionOf(o)
+		key := o.Field
+		if o.IniName != "" {
+			key = o.IniName
+		}
+		if preamble && o.Cmd == d.Root && r.Bool() && iniKeySingles(d, preorderGroups(d.Root.G), key, o) {
+			// entries before any header address all of the parser's own groups
+			s, g = "", d.Root.G
+		} else if !iniKeySingles(d, []*Grp{g}, key, o) {
+			continue
+		}
 		if _, ok := bySect[s]; !ok {
 			order = append(order, s)
 			grp[s] = g
@@ -62,10 +91,18 @@ func c14BaseFile(r *Rand, d *Decl) []iniLine {
 	}
 	// random section order
 	perm := r.Perm(len(order))
+	// (the header-less block can only come first)
+	for i, pi := range perm {
+		if order[pi] == "" {
+			perm[0], perm[i] = perm[i], perm[0]
+		}
+	}
 	var lines []iniLine
 	for _, pi := range perm {
 		s := order[pi]
-		lines = append(lines, iniLine{Text: "[" + s + "]", Kind: "header", Sect: s, GrpRef: grp[s]})
+		if s != "" {
+			lines = append(lines, iniLine{Text: "[" + s + "]", Kind: "header", Sect: s, GrpRef: grp[s]})
+		}
 		for _, o := range bySect[s] {
 			n := 1
 			if o.T.IsMulti() {
@@ -379,6 +416,29 @@ func c14Fault(c *Ctx, d *Decl, noisy []string, meta []iniLine, crlf int) {
 		}
 	case "unknown-option":
 		line = fmt.Sprintf("zz_no_such_option_%d = 1", r.Intn(100))
+		// near misses of a key that the same section uses just before: another letter case (only ini-names are
+		// matched case-insensitively), one character more or less
+		var cands []int
+		for i, m := range meta {
+			if m.Kind == "entry" && m.Opt.IniName == "" {
+				cands = append(cands, i)
+			}
+		}
+		if len(cands) > 0 && r.Chance(2, 3) {
+			i := cands[r.Intn(len(cands))]
+			f := meta[i].Opt.Field
+			key := []string{strings.ToLower(f), f + "x", f[:len(f)-1], strings.ToLower(f[:1]) + f[1:]}[r.Intn(4)]
+			known := key == ""
+			for _, o := range d.Opts {
+				if strings.EqualFold(o.IniName, key) || o.Field == key || (o.Long != "" && d.FullLong(o) == key) || (o.Short != 0 && string(o.Short) == key) {
+					known = true
+				}
+			}
+			if !known {
+				p = i + 1
+				line = key + " = 1"
+			}
+		}
 	case "empty-key":
 		line = r.Pick([]string{"= 5", " = x", "=", "\t=\tvalue"})
 	case "unconvertible", "bad-map-quote":
